@@ -1550,6 +1550,12 @@ class Interp:
             return ("lower", recv)
         if attr in ("find", "rfind", "index", "rindex"):
             return ("find", recv, a[0] if a else NONE, "last" if attr.startswith("r") else "first")
+        if attr in ("partition", "rpartition") and a and a[0][0] == "const":
+            which = "last" if attr == "rpartition" else "first"
+            pos = ("find", recv, a[0], which)
+            n = len(a[0][1])
+            return ("tuple", ("slice", recv, NONE, pos, NONE), a[0],
+                    ("slice", recv, ("bin", "+", pos, const(n)), NONE, NONE))
         if attr in ("startswith", "endswith"):
             return ("call", attr, recv, *a)
         if attr == "replace":
